@@ -164,13 +164,14 @@ theorem chunks_mem (n : Nat) : ∀ (k : Nat) (l : List β), l.length = n * k →
       exact ⟨h1, fun x hx => List.mem_of_mem_drop (h2 x hx)⟩
 
 /-- generic assembly of `CdfTableOK` from the kernel-checked facts -/
-theorem cdfTableOK_mk (nE nB nZ : Nat) (logE beta frac rows : List Nat)
-    (hdims : rows.length = nE * nB ∧ logE.length = nE ∧ beta.length = nB ∧ frac.length = nZ ∧ 2 ≤ nE ∧ 2 ≤ nB ∧ 2 ≤ nZ)
+theorem cdfTableOK_mk (nE nB nZ : Nat) (logE beta frac : List Nat) (rowsByE : List (List Nat))
+    (hdims : rowsByE.length = nE ∧ (∀ l ∈ rowsByE, l.length = nB) ∧ logE.length = nE ∧ beta.length = nB ∧ frac.length = nZ
+      ∧ 2 ≤ nE ∧ 2 ≤ nB ∧ 2 ≤ nZ)
     (haxes : Data.strictIncPos logE = true ∧ Data.strictIncPos beta = true ∧ Data.strictIncPos frac = true
       ∧ frac.getLast? = some Data.bitsOne)
-    (hrows : ∀ r ∈ rows, Data.CdfRowOK (nZ - 1) r) :
-    CdfTableOK (mkCdf nE nB nZ logE beta frac rows : CdfTable ℝ) := by
-  obtain ⟨d1, d2, d3, d4, d5, d6, d7⟩ := hdims
+    (hrows : ∀ r ∈ rowsByE.flatten, Data.CdfRowOK (nZ - 1) r) :
+    CdfTableOK (mkCdf nZ logE beta frac rowsByE : CdfTable ℝ) := by
+  obtain ⟨d1, d1', d2, d3, d4, d5, d6, d7⟩ := hdims
   obtain ⟨a1, a2, a3, a4⟩ := haxes
   have hz : nZ - 1 + 1 = nZ := by omega
   refine ⟨by simp [mkCdf, d2, d5], by simp [mkCdf, d3, d6], by simp [mkCdf, d4, d7],
@@ -178,16 +179,17 @@ theorem cdfTableOK_mk (nE nB nZ : Nat) (logE beta frac rows : List Nat)
   · simp only [mkCdf, List.getLast?_map, a4, Option.map_some]
     rw [ofBits_of_lt (by decide)]
     exact congrArg some ofBitsPos_one
-  · simp [mkCdf, chunks_length, d2]
+  · simp [mkCdf, d1, d2]
   · intro pl hpl
-    have := chunks_mem nB nE (rows.map (rowOf nZ)) (by simp [d1, Nat.mul_comm]) pl hpl
-    simp [mkCdf, this.1, d3]
+    simp only [mkCdf, List.mem_map] at hpl
+    obtain ⟨l, hl, rfl⟩ := hpl
+    simp [mkCdf, d1' l hl, d3]
   · intro pl hpl row hrow
-    have := chunks_mem nB nE (rows.map (rowOf nZ : Nat → List ℝ)) (by simp [d1, Nat.mul_comm]) pl hpl
-    have hmem := this.2 row hrow
-    obtain ⟨r, hr, rfl⟩ := List.mem_map.mp hmem
+    simp only [mkCdf, List.mem_map] at hpl
+    obtain ⟨l, hl, rfl⟩ := hpl
+    obtain ⟨r, hr, rfl⟩ := List.mem_map.mp hrow
     refine ⟨by simp [mkCdf, rowOf_length, d4], ?_⟩
-    have := rowOK_of_cdfRowOK (nZ - 1) r (hrows r hr)
+    have := rowOK_of_cdfRowOK (nZ - 1) r (hrows r (List.mem_flatten.mpr ⟨l, hl, hr⟩))
     rwa [hz] at this
 
 theorem pexitTableOK_mk (pnE pnB : Nat) (plogE pbeta rows : List Nat)
